@@ -1,22 +1,25 @@
 (* Integer arithmetic as the GlareDB source computes it (definitions only).
 
    Transcribed from
+     crates/glaredb_core/src/functions/scalar/builtin/arith/checked.rs   CheckedArith / CheckedNeg
+       ints: add/sub/mul/div_checked = std checked_*; rem_checked = None for divisor 0, else
+             Some(checked_rem(..).unwrap_or(0))   (MIN % -1 = 0);   neg_checked = checked_neg
      crates/glaredb_core/src/functions/scalar/builtin/arith/{add,sub,mul,div,rem}.rs
-       Add::execute   |&a, &b, buf| buf.put(&(a + b))        (likewise  -  *  /  %)
-     crates/glaredb_core/src/functions/scalar/builtin/negate.rs
-       Negate::execute |&a, buf| buf.put(&(-a))               (signed widths only)
+       Add::execute   |&a, &b, buf| match a.add_checked(b) { Some(v) => buf.put(&v), None => failed = true }
+                      if failed { return Err(DbError::new("Arithmetic overflow in '+'")) }   (likewise - * / %)
+     crates/glaredb_core/src/functions/scalar/builtin/negate.rs   neg_checked, same shape (signed widths only)
      crates/glaredb_core/src/functions/aggregate/builtin/sum.rs
        SumStateCheckedAdd: self.sum = self.sum.checked_add(..).ok_or_else(|| DbError::new("Sum overflowed"))?
      crates/glaredb_core/src/functions/aggregate/builtin/avg.rs
        AvgStateF64<i64, i128>: sum += input (i128), count += 1, sum as f64 / count as f64
 
-   The operators are the *native* Rust operators on the storage type, so their behaviour on
-   overflow depends on the build profile: with overflow checks (dev) `+ - *` and unary `-` panic,
-   without (release) they wrap modulo 2^w.  `/` and `%` panic in every profile when the divisor is 0
-   and when the dividend is MIN and the divisor -1 (also `%`, whose mathematical result 0 would be
-   representable).  `style` = Native is what the source does today; Checked is what a
-   `checked_*`-based operator would do (overflow => Err); vlib/tables_arith.py reads from the source
-   which of the two each operator file uses. *)
+   `style` = Checked is what the source does today (fix "integer and decimal arithmetic must fail with an
+   error instead of panicking or wrapping"): an unrepresentable result fails the statement in every build
+   profile.  `style` = Native is what it did before: the native Rust operators, whose overflow behaviour
+   depends on the profile (`mode`): with overflow checks `+ - *` and unary `-` panic, without they wrap
+   modulo 2^w; `/` and `%` panic for divisor 0 and for MIN / -1, MIN % -1.  vlib/tables_arith.py reads
+   from the source which of the two each operator file uses; the Native variant is kept so that a
+   regression is recognised for what it is. *)
 From Coq Require Import ZArith List Bool.
 Import ListNotations.
 Open Scope Z_scope.
@@ -69,7 +72,11 @@ Definition impl_bin (st : style) (m : mode) (sg : sgn) (w : Z) (op : binop) (a b
   | Sub => arith_result st m sg w (a - b)
   | Mul => arith_result st m sg w (a * b)
   | Div => if div_fault sg w a b then fault st else Ok (Z.quot a b)
-  | Rem => if div_fault sg w a b then fault st else Ok (Z.rem a b)
+  | Rem =>
+    match st with
+    | Native => if div_fault sg w a b then Panic else Ok (Z.rem a b)
+    | Checked => if b =? 0 then Err else Ok (Z.rem a b)     (* rem_checked: MIN % -1 = Z.rem MIN (-1) = 0 *)
+    end
   end.
 
 (* unary minus: signatures exist for the signed widths only *)
